@@ -339,7 +339,33 @@ class Fn:
                 return path
             blk = self.blocks[b]
             t = blk["term"]
-            facts = frozenset((l, v) for l, v in facts if l not in assigned[b])
+            fd = dict(facts)
+            for st in blk["stmts"]:
+                if len(st["dst"]) != 1:
+                    continue
+                d_ = st["dst"][0]
+                rv = st["rv"]
+                val = None
+                if rv.get("r") == "use" and rv["o"]:
+                    o = rv["o"][0]
+                    k = o.get("k")
+                    if k is not None and k.get("ty") == "bool" and k.get("v") in (0, 1):
+                        val = k["v"]
+                    else:
+                        pl = o.get("c") or o.get("m")
+                        if pl and len(pl) == 1 and pl[0] in fd:
+                            val = fd[pl[0]]
+                elif rv.get("r") == "un" and rv.get("op") == "Not" and rv["o"]:
+                    pl = rv["o"][0].get("c") or rv["o"][0].get("m")
+                    if pl and len(pl) == 1 and pl[0] in fd:
+                        val = 1 - fd[pl[0]]
+                if val is None:
+                    fd.pop(d_, None)
+                else:
+                    fd[d_] = val
+            if t["t"] == "call" and t.get("dst"):
+                fd.pop(t["dst"][0], None)
+            facts = frozenset(fd.items())
             nxt = []
             if t["t"] == "switch" and t.get("ty") == "bool" and op_local(t["o"]) is not None:
                 root = self._bool_root(b, op_local(t["o"]))
